@@ -200,6 +200,48 @@ func genC08(g *Rng, tier string, emit func(Op)) {
 				}
 			}
 		}
+		// the entry point that takes the challenge as given, on freshly decoded members - whole, and
+		// with parts of an optional sub-proof missing: a verdict, never a crash
+		for pi, ptree := range s.trees {
+			pt, _ := ptree.(T)
+			if pt["A"] == nil {
+				continue
+			}
+			variants := []T{cloneTree(pt).(T)}
+			if nr, ok := pt["nonrev_proof"].(T); ok {
+				for _, f := range []func(n T){
+					func(n T) { delete(n, "responses") },
+					func(n T) { n["responses"] = nil },
+					func(n T) { n["responses"] = T{} },
+					func(n T) {
+						if r, ok := n["responses"].(T); ok {
+							delete(r, "alpha")
+						}
+					},
+					func(n T) {
+						for k := range n {
+							delete(n, k)
+						}
+					},
+				} {
+					v := cloneTree(pt).(T)
+					f(v["nonrev_proof"].(T))
+					variants = append(variants, v)
+				}
+				_ = nr
+			}
+			if rps, ok := pt["rangeproofs"].(T); ok && len(rps) > 0 {
+				v := cloneTree(pt).(T)
+				for k := range v["rangeproofs"].(T) {
+					v["rangeproofs"].(T)[k] = []any{T{}}
+				}
+				variants = append(variants, v)
+			}
+			for _, v := range variants {
+				emit(Op{"op": "verifyD-with-challenge", "class": "entry-with-challenge", "label": never, "nomodel": true, "fkey": "C08/entry-with-challenge",
+					"key": s.keys[pi].id, "proof": v})
+			}
+		}
 		// a range proof whose response arrays are BOTH cut or padded to one length that is not the
 		// number of squares
 		for pi, ptree := range s.trees {
